@@ -1437,7 +1437,7 @@ def randmio_dir_signed(R, itr, seed=None):
         number of actual rewirings carried out
     '''
     rng = get_rng(seed)
-    R = R.copy()
+    R = R.astype(float) if R.dtype == bool else R.copy()  # np.sign has no loop for bool
     n = len(R)
     if n < 4:
         # a swap needs four distinct nodes: nothing can be rewired
@@ -1601,7 +1601,7 @@ def randmio_und_signed(R, itr, seed=None):
         number of rewirings made
     '''
     rng = get_rng(seed)
-    R = R.copy()
+    R = R.astype(float) if R.dtype == bool else R.copy()  # np.sign has no loop for bool
     n = len(R)
     if n < 4:
         # a swap needs four distinct nodes: nothing can be rewired
